@@ -89,7 +89,8 @@ class DDLParser(Parser, Dialects):
         t_tag = self.parse_tags_symbols(t)
         if t_tag:
             return t_tag
-        if t.value.startswith("ARRAY"):
+        if t.value == "ARRAY" or t.value.startswith("ARRAY["):
+            # the ARRAY / ARRAY[n] type suffix, not a name that begins with these letters
             t.type = "ARRAY"
             return t
         elif self.lexer.is_like:
